@@ -38,8 +38,13 @@ Inductive case :=
 | CMulti (execs : list N) (pi : list N) (chains : list (list N * N * N * N)) (rootok : N)
     (* impl child chains: title, start, count, 1 iff ChildHash = single-layer root of
        txs[start:start+count]; rootok: root = GetMerkleRoot(child hashes) (or the single root) *)
-| CRuns (nobs : N) (runs : list (list N)).
+| CRuns (nobs : N) (runs : list (list N))
     (* digests of the observables of one generated block sequence, one list per run *)
+| CRoot (n : N) (ncpus : list N) (ref : list N) (runs : list (list N)).
+    (* transaction roots of one block of [n] main-chain transactions: [ref] = the roots
+       computed by the harness' own sequential pairwise double-SHA-256 (first 63 bits each),
+       [runs] = the roots merkle.CalcMerkleRoot / util.CreateNewBlock / GetMerkleRoot /
+       CalcMerkleRootCache returned in each worker process, [ncpus] = runtime.NumCPU() there *)
 
 Definition nats (l : list N) : list nat := map N.to_nat l.
 Definition restrict (pi : list nat) (k : nat) : list nat := filter (fun i => i <? k) pi.
@@ -119,4 +124,9 @@ Definition check_case (c : case) : verdict :=
       both (negb (N.eqb nobs 0) && (1 <? List.length runs)
             && forallb (fun r => List.length r =? N.to_nat nobs) runs)
            (runs_equal runs)
+  | CRoot n ncpus ref runs =>
+      both (negb (N.eqb n 0) && (0 <? List.length ref) && (1 <? List.length runs)
+            && (List.length ncpus =? List.length runs)
+            && forallb (fun r => List.length r =? List.length ref) runs)
+           (runs_match ref runs)
   end.
